@@ -11,6 +11,11 @@ _BOUNDS_RULE = ("cases = (n, exact superadditive game, knowledge set K ⊇ minim
                 "all K for n=3,4, Bernoulli K for n=5..7; non-trivial = at least one unknown coalition, ≥ 2 distinct interval widths, "
                 "game not symmetric under any transposition of players; distinct by (game, K, computer)")
 
+_ENV_RULE = ("cases = (n, hidden-game family, computer matching the family, gap function, budget None/0..3, initial list minimal / without ∅,N / with extras / with duplicates) × "
+             "operation lists; 15 families from GENERATORS plus 6 exact families; n = 3: every reveal order (so every sequence without repetition is a prefix) followed by un-reveals; "
+             "n = 4, 5: random walks with ~12% invalid actions; linear env n = 3..6; non-trivial = asymmetric hidden game, ≥ 2 explorable coalitions, ≥ 2 distinct rewards seen; "
+             "distinct by (configuration, operation list)")
+
 PROPS = {
     "C01": {"lean": "ICG.Props.C01", "streams": [("corr_bounds", "C01"), ("corr_hist", "C01")], "rule": _BOUNDS_RULE,
             "assumptions": ["float rounding is outside the theorems; exact stream uses integer/dyadic values on which float64 arithmetic is exact"],
@@ -19,7 +24,7 @@ PROPS = {
     "C03": {"lean": "ICG.Props.C03", "streams": [("corr_bounds", "C03"), ("corr_hist", "C03")], "rule": _BOUNDS_RULE, "quick_s": 60, "thorough_s": 600},
     "C04": {"lean": "ICG.Props.C04", "streams": [("corr_bounds", "C04")], "rule": _BOUNDS_RULE, "quick_s": 90, "thorough_s": 900},
     "C07": {"lean": ["ICG.Props.C07", "ICG.Props.C07Gaps"], "streams": [("corr_bounds", "C07"), ("corr_shapley", "C07")], "rule": _BOUNDS_RULE, "quick_s": 60, "thorough_s": 600},
-    "C08": {"lean": "ICG.Props.C08", "streams": [("corr_bounds", "C08"), ("corr_hist", "C08")], "rule": _BOUNDS_RULE, "quick_s": 60, "thorough_s": 600},
+    "C08": {"lean": ["ICG.Props.C08", "ICG.Lemmas.EnvUndo"], "streams": [("corr_bounds", "C08"), ("corr_hist", "C08"), ("corr_env", "C08env")], "rule": _BOUNDS_RULE, "quick_s": 60, "thorough_s": 600},
     "C17": {"lean": "ICG.Props.C17", "streams": [("corr_table", "C17")],
             "rule": ("random histories of 40 public value operations (set / unset / reveal / un-reveal / bulk set / bulk reset / bulk and scalar bound "
                      "writes / copy / negate / getters, ~10% malformed) on n = 1..5 over several live objects; non-trivial = history with ≥ 6 distinct "
@@ -102,4 +107,15 @@ PROPS = {
                      "families, 1e-12 relative elsewhere; oracle: returns, n, length 2^n, float64, finite, v[0]==0, SA (exact rationals, rtol 1e-9), monotone for XOS/XS/OXS/budget/coverage, "
                      "seed-determinism except graph_generator keys and predictible_factory. non-trivial = >=3 distinct values and not symmetric under any transposition; distinct by (key,n,seed)"),
             "trusted": ["numpy distributions stay in their documented ranges; networkx graph generators"]},
+    "C09": {"lean": "ICG.Props.C09", "streams": [("corr_env", "C09")], "quick_s": 60, "thorough_s": 600, "rule": _ENV_RULE,
+            "assumptions": ["bound computer and gap function are parameters of the theorems; the stream takes bounds and gaps from the real code on a fresh real game with the same knowledge",
+                            "the normalised hidden game is an input (real normalize_game); 'reward never positive' is proved under the hypothesis that the gap is non-negative (C07)"]},
+    "C13": {"lean": ["ICG.Props.C13", "ICG.Lemmas.ExpectedGreedy"], "streams": [("corr_env", "C13"), ("corr_search", "C13greedy")], "quick_s": 90, "thorough_s": 900,
+            "rule": _ENV_RULE + " Expected-greedy: real get_greedy_rewards for several (n, steps, repetitions) shapes, processes {1,2,5}; candidate-set order taken from a replica Python set; "
+                    "comparison with get_best_exploitability on the same replayed games.",
+            "assumptions": ["'leaves the environment exactly as it found it' is equality of every field and of table rows < 2^n (EnvEq)",
+                            "expected-greedy: monotonicity of the gap under more knowledge is a hypothesis (it is C07)"]},
+    "C16": {"lean": "ICG.Props.C16", "streams": [("corr_env", "C16")], "quick_s": 60, "thorough_s": 600, "rule": _ENV_RULE,
+            "assumptions": ["the coalition sampled by np.random.choice is an input of the model, which checks that it was a legal choice",
+                            "'of length n' holds exactly when a coalition of size n-1 is explorable (proved: length = max explorable size + 1)"]},
 }
